@@ -65,6 +65,17 @@ b('kf4-fixed-ccfb-checks-fmt', [
     ('rfc8888.go', '	if h.Type != TypeTransportSpecificFeedback {\n		return errWrongType\n	}\n\n	b.SenderSSRC', '	if h.Type != TypeTransportSpecificFeedback || h.Count != FormatCCFB {\n		return errWrongType\n	}\n\n	b.SenderSSRC'),
 ], 'repairs open finding KF4 (CCFeedbackReport.Unmarshal accepted any FMT under PT 205)')
 
+b('nackpairs-sorted-first', [
+    ('transport_layer_nack.go', '	"math"\n)', '	"math"\n	"sort"\n)'),
+    ('transport_layer_nack.go', '	nackPair := &NackPair{PacketID: sequenceNumbers[0]}\n	for i := 1; i < len(sequenceNumbers); i++ {\n		m := sequenceNumbers[i]\n',
+     '	sorted := append([]uint16(nil), sequenceNumbers...)\n	sort.Slice(sorted, func(i, j int) bool { return sorted[i] < sorted[j] })\n	nackPair := &NackPair{PacketID: sorted[0]}\n	for i := 1; i < len(sorted); i++ {\n		m := sorted[i]\n'),
+], 'C12 demands that the pairs cover exactly the requested set, not a particular partition into pairs')
+
+b('decoders-preallocate-bounded', [
+    ('source_description.go', '	for i := headerLength; i < len(rawPacket); {\n		var chunk SourceDescriptionChunk', '	s.Chunks = make([]SourceDescriptionChunk, 0, int(h.Count))\n	for i := headerLength; i < len(rawPacket); {\n		var chunk SourceDescriptionChunk'),
+    ('packet.go', '	var packets []Packet\n	for len(rawData) != 0 {', '	packets := make([]Packet, 0, 4)\n	for len(rawData) != 0 {'),
+], 'at most 31 chunk slots / 4 packet slots up front: allocation stays bounded by a small constant plus a multiple of the input')
+
 os.makedirs(OUT, exist_ok=True)
 index = []
 for name, edits, why in B:
